@@ -46,7 +46,10 @@ func VerifH01b() {
 	body := nondetBytes(blen)
 	cut := vChoose(2) // 1: the stream ends inside the password message
 	cont := nondetBytes(vChoose(M + 1))
-	outcome := vChoose(4) // 0 accept, 1 reject, 2 fail, 3 fail while claiming "valid" (an error is an error)
+	// 0 accept, 1 reject, 2 fail, 3 fail while claiming "valid" (an error is an error);
+	// PANICS=1: 4 the validator panics with a string, 5 with an error value — the
+	// embedder (this harness) recovers whatever escapes serve: a panic is never a "yes"
+	outcome := vChoose(4 + 2*vParam("PANICS", 0))
 
 	pw := vMsgBytes(typ, body)
 	// the declared length itself may be invalid: below the 4-byte minimum, or
@@ -93,6 +96,10 @@ func VerifH01b() {
 			return back, false, nil
 		case 2:
 			return back, false, errors.New("validator failed")
+		case 4:
+			panic("validator: user directory unavailable")
+		case 5:
+			panic(errors.New("validator: user directory unavailable"))
 		default:
 			return back, true, errors.New("validator failed")
 		}
@@ -106,7 +113,17 @@ func VerifH01b() {
 	)
 	vAssert("newserver-ok", err == nil)
 	conn := vNewConn(input)
-	serveErr := srv.serve(context.Background(), conn)
+	var serveErr error
+	panicked := false
+	func() {
+		defer func() {
+			if r := recover(); r != nil {
+				panicked = true
+			}
+		}()
+		serveErr = srv.serve(context.Background(), conn)
+	}()
+	vAssert("only-a-panicking-validator-panics", !panicked || outcome >= 4)
 
 	// reference: is the password message well-formed?
 	nul := -1
@@ -143,7 +160,7 @@ func VerifH01b() {
 	vAssertK("rejected-no-ReadyForQuery", "KF-C01-1", outcome == 1, vCount(types, 'Z') == 0)
 	vAssertK("rejected-no-middleware", "KF-C01-1", outcome == 1, middleware == 0)
 	vAssertK("rejected-nothing-parsed-or-executed", "KF-C01-1", outcome == 1, len(w.events) == 0)
-	vAssertK("rejected-serve-returns-error", "KF-C01-1", outcome == 1, serveErr != nil)
+	vAssertK("rejected-serve-returns-error", "KF-C01-1", outcome == 1, serveErr != nil || panicked)
 	if wellFormed && outcome == 1 {
 		msgs, _ := vFrames(conn.out)
 		found := false
@@ -171,6 +188,9 @@ func VerifH01b() {
 	}
 	if wellFormed && outcome == 3 {
 		vReach("validator-failed-claiming-valid")
+	}
+	if wellFormed && outcome == 4 {
+		vReach("validator-panicked")
 	}
 }
 
